@@ -317,6 +317,13 @@ func genAssets(rng *rand.Rand, nRand int) []lib.GenAsset {
 		a.Frags, a.CompactTrun = 2, true
 		out = append(out, mk("gshort", lib.VideoRep("V300", 90000, 3000, vd), a))
 	}
+	{
+		// 2048-sample frames at 48 kHz (HE-AAC style), durations only in trun: RepData.sampleDur() guesses 1024
+		vd := lib.UniformDurs(4, 180000)
+		a := lib.AudioRep("A48", 2048, lib.AudioDursFollowing(vd, 90000, 48000, 2048, 0))
+		a.Codec = "mp4a.40.5"
+		out = append(out, mk("ghe2048", lib.VideoRep("V300", 90000, 3000, vd), a))
+	}
 	for i := 0; i < nRand; i++ {
 		rate := lib.GenRates[rng.Intn(len(lib.GenRates))]
 		ts, sd := rate[0], rate[1]
@@ -622,6 +629,8 @@ type l1In struct {
 	SegID    uint64 `json:"seg_id,omitempty"` // the integer in the URL ($Number$ or $Time$)
 	NowMS    int64  `json:"now_ms,omitempty"`
 	StartNr  int64  `json:"start_nr,omitempty"`
+	// the frame duration the MPD code works with differs from the frame duration of the representation
+	SampleDurMismatch bool `json:"sampledur_mismatch,omitempty"`
 }
 
 type tmpl struct {
@@ -899,6 +908,10 @@ type tlIn struct {
 	URL     string     `json:"url"`
 	RefT    uint64     `json:"ref_t"`
 	Entries [][2]int64 `json:"ref_entries"`
+	// the frame duration the MPD code works with (RepData.sampleDur()) and the frame duration of the representation
+	MpdSampleDur      uint64 `json:"mpd_sample_dur"`
+	FrameDur          uint64 `json:"frame_dur"`
+	SampleDurMismatch bool   `json:"sampledur_mismatch,omitempty"`
 }
 
 // timelineRun: the SegmentTimeline MPD at nowMS; audio entries against video entries; $Time$ requests.
@@ -914,7 +927,7 @@ func (r *run) timelineRun(as *assetState, prefix string, nowMS int64, nFetch int
 		c.Res.Notes = append(c.Res.Notes, "no SegmentTimeline in "+url)
 		return
 	}
-	in := tlIn{Kind: "timeline", Asset: as.d.Name, URL: url}
+	in := tlIn{Kind: "timeline", Asset: as.d.Name, URL: url, MpdSampleDur: as.mpdF, FrameDur: as.F, SampleDurMismatch: as.mpdF != as.F}
 	if t.videoTL[0].T != nil {
 		in.RefT = *t.videoTL[0].T
 	}
@@ -962,7 +975,7 @@ func (r *run) timelineRun(as *assetState, prefix string, nowMS int64, nFetch int
 		for k := len(v) - 1; k >= 0 && k >= len(v)-nFetch; k-- {
 			nr := last - int64(len(v)-1-k)
 			lin := l1In{Kind: "l1", Asset: as.d.Name, Mode: "timeline-number", N: nr, RefStart: v[k].T, RefEnd: v[k].T + v[k].D,
-				SegID: uint64(nr), NowMS: nowMS, StartNr: 0} // startNumber of the MPD is the first listed entry; the configured start number is 0
+				SegID: uint64(nr), NowMS: nowMS, StartNr: 0, SampleDurMismatch: as.mpdF != as.F} // startNumber of the MPD is the first listed entry; the configured start number is 0
 			lin.AudioURL = fmt.Sprintf("/livesim2/%s%s/%s?nowMS=%d", prefix, as.d.URLPath, fillT(t.audio, t.audioRep, uint64(nr)), nowMS)
 			o := r.fetchAudio(as, lin, nr)
 			if o.status == 200 && (o.ps.Tfdt != a[k].T || o.ps.dur() != a[k].D) {
@@ -994,7 +1007,7 @@ func (r *run) timelineRun(as *assetState, prefix string, nowMS int64, nFetch int
 			}
 		}
 		lin := l1In{Kind: "l1", Asset: as.d.Name, Mode: "time", N: nr, RefStart: v[k].T, RefEnd: v[k].T + v[k].D,
-			SegID: a[k].T, NowMS: nowMS, StartNr: 0}
+			SegID: a[k].T, NowMS: nowMS, StartNr: 0, SampleDurMismatch: as.mpdF != as.F}
 		lin.AudioURL = fmt.Sprintf("/livesim2/%s%s/%s?nowMS=%d", prefix, as.d.URLPath, fillT(t.audio, t.audioRep, a[k].T), nowMS)
 		o := r.fetchAudio(as, lin, nr)
 		if o.status == 200 && (o.ps.Tfdt != a[k].T || o.ps.dur() != a[k].D) {
@@ -1567,13 +1580,16 @@ func (r *run) l2Arith() {
 		}
 		id := r.add(fmt.Sprintf("KTimeline %s %s [%s] %s %d %d %d %s %d [%s]", lib.Zs(int64(startNr)), u(refT), strings.Join(ents, "; "), u(rr), F32, rd.DefaultSampleDuration, codec, u(a), cls, strings.Join(obs, "; ")), in, false)
 		c.Count(fmt.Sprintf("l2:generateTimelineEntriesFromRef:class%d", cls))
-		if cls == 0 && startNr >= 0 && F > 0 {
-			// oracle: expanded entries are the frame-aligned images of the reference entries
+		in.MpdSampleDur, in.FrameDur, in.SampleDurMismatch = F, uint64(F32), F != uint64(F32)
+		r.c.Res.Inputs[id] = in
+		if startNr >= 0 && F32 > 0 && len(ent) > 0 {
+			// oracle: expanded entries are the frame-aligned images of the reference entries, for the frame
+			// duration of the representation (its constant sample duration)
 			var exp []td
 			t := refT
 			for _, e := range ent {
 				for j := uint64(0); j <= e[1]; j++ {
-					s0, e0 := ceilFrame(t, rr, F, a), ceilFrame(t+e[0], rr, F, a)
+					s0, e0 := ceilFrame(t, rr, uint64(F32), a), ceilFrame(t+e[0], rr, uint64(F32), a)
 					exp = append(exp, td{s0, e0 - s0})
 					t += e[0]
 				}
@@ -1589,8 +1605,12 @@ func (r *run) l2Arith() {
 					tt += uint64(e[1])
 				}
 			}
-			if fmt.Sprint(exp) != fmt.Sprint(got) {
-				c.Fail(id, "timeline-entries", "generateTimelineEntriesFromRef does not list the frame-aligned images of the reference entries", in)
+			if cls != 0 || fmt.Sprint(exp) != fmt.Sprint(got) {
+				key := "timeline-entries"
+				if in.SampleDurMismatch {
+					key = "timeline-sampledur"
+				}
+				c.Fail(id, key, fmt.Sprintf("generateTimelineEntriesFromRef does not list the frame-aligned images of the reference entries (class %d; frame duration %d, the MPD code works with %d)", cls, F32, F), in)
 			}
 		}
 	}
